@@ -11,6 +11,7 @@
 
 #include <cstddef>
 #include <iterator>
+#include <list>
 #include <string>
 #include <vector>
 
@@ -223,6 +224,14 @@ struct Runner
         const Value* in = reinterpret_cast<const Value*>(inraw);
         vec.assign(in, in + in_n);
         const std::vector<Value>* invec = &vec;
+        // sources whose elements are wider than the array's (every element converts to the same Value): valid for
+        // std::vector<Value>::assign / insert, which convert element by element; and a non-contiguous source
+        static std::vector<int> wide;
+        static std::vector<short> wide16;
+        static std::list<Value> lst;
+        wide.assign(in, in + in_n);
+        wide16.assign(in, in + in_n);
+        lst.assign(in, in + in_n);
         const Value val = static_cast<Value>(valb);
         View v{reinterpret_cast<Byte*>(frame), nbytes};
         auto idx = [&](typename View::iterator it) { return (long long)(it - v.begin()); };
@@ -291,6 +300,21 @@ struct Runner
             v.assign_string(cstr);
         else if(n == "assign_range")
             v.assign_range(*invec);
+        else if(n == "assign_range_wide")
+        {
+            if(in_n % 2)
+                v.assign_range(wide);
+            else
+                v.assign_range(wide16);
+        }
+        else if(n == "assign_range_list")
+            v.assign_range(lst);
+        else if(n == "assign_it_wide")
+            v.assign(wide.data(), wide.data() + wide.size());
+        else if(n == "insert_wide")
+            r.ret_index = idx(v.insert(v.begin() + pos, wide16.begin(), wide16.end()));
+        else if(n == "insert_list")
+            r.ret_index = idx(v.insert(v.begin() + pos, lst.begin(), lst.end()));
         else if(n == "clear")
             v.clear();
         else if(n == "observe")
@@ -505,7 +529,7 @@ void run_plan(Exec& ex, DoOp do_op)
                 }
             }
         }
-        else if(n == "insert_fwd" || n == "insert_vec" || n == "insert_inp" || n == "insert_il")
+        else if(n == "insert_fwd" || n == "insert_vec" || n == "insert_inp" || n == "insert_il" || n == "insert_wide" || n == "insert_list")
         {
             pos = op.uarg(0) % (S + 1);
             clampin(lim_grow > S ? lim_grow - S : 0);
@@ -547,7 +571,7 @@ void run_plan(Exec& ex, DoOp do_op)
             newS = cnt;
             M2.assign(cnt, valb);
         }
-        else if(n == "assign_it" || n == "assign_inp" || n == "assign_il" || n == "assign_range" || n == "assign_string")
+        else if(n == "assign_it" || n == "assign_inp" || n == "assign_il" || n == "assign_range" || n == "assign_string" || n == "assign_range_wide" || n == "assign_range_list" || n == "assign_it_wide")
         {
             clampin(lim_grow);
             if(n == "assign_il") clampin(4);
@@ -785,7 +809,8 @@ Result exec_plan(const Plan& plan)
 // ---------------------------------------------------------------- generator
 const char* kMutators[] = {"push_back", "pop_back", "insert1", "insertn", "insert_fwd", "insert_vec", "insert_inp", "insert_il",
                            "erase1", "erase2", "resize", "resize_v", "resize_di", "assign_n", "assign_it", "assign_inp",
-                           "assign_il", "assign_string", "assign_range", "clear", "observe", "insert1_self", "insertn_self", "push_back_self", "resize_v_self"};
+                           "assign_il", "assign_string", "assign_range", "clear", "observe", "insert1_self", "insertn_self", "push_back_self", "resize_v_self",
+                           "assign_range_wide", "assign_range_list", "assign_it_wide", "insert_wide", "insert_list"};
 constexpr int kNumMut = sizeof(kMutators) / sizeof(kMutators[0]);
 
 Plan gen_plan(u64 seed, const std::string& prop, const std::string& tier)
@@ -885,7 +910,7 @@ Plan gen_plan(u64 seed, const std::string& prop, const std::string& tier)
             o.a = {small(), (long long)wl.below(256)};
         else if(n == "insertn")
             o.a = {small(), small(), (long long)wl.below(256)};
-        else if(n == "insert_fwd" || n == "insert_vec" || n == "insert_inp")
+        else if(n == "insert_fwd" || n == "insert_vec" || n == "insert_inp" || n == "insert_wide" || n == "insert_list")
         {
             o.a = {small()};
             blob(wl.chance(1, 3) ? (std::size_t)cap + 8 : 6);
@@ -912,7 +937,7 @@ Plan gen_plan(u64 seed, const std::string& prop, const std::string& tier)
             o.a = {small()};
         else if(n == "resize_v" || n == "assign_n")
             o.a = {small(), (long long)wl.below(256)};
-        else if(n == "assign_it" || n == "assign_inp" || n == "assign_range" || n == "assign_string")
+        else if(n == "assign_it" || n == "assign_inp" || n == "assign_range" || n == "assign_string" || n == "assign_range_wide" || n == "assign_range_list" || n == "assign_it_wide")
             blob(wl.chance(1, 3) ? (std::size_t)cap + 8 : 6);
         else if(n == "assign_il")
             blob(4);
